@@ -46,9 +46,6 @@ FLAGS = {  # name: (graph, nested, locked, asyncio)
 }
 NAMES = list(FLAGS)
 
-SIG_LOCKED_GRAPH = 'C15:LockedGraphMachine/LockedHierarchicalGraphMachine:model_context_map-not-rekeyed'
-SIG_QMODEL = "C15:async queued='model':_transition_queue_dict-not-rekeyed"
-
 
 # ---------------------------------------------------------------------------------------------
 # picklable module-level vocabulary: recording models, recording contexts, module functions
@@ -820,16 +817,14 @@ def pickle_copy(case, rigA):
 
 def kind_of(case):
     g, nested, locked, asy = FLAGS[case['cls']]
-    return [g, locked, nested, 1 if (asy and case['opts']['queued'] == 'model') else 0, asy]
+    # read off the live class: do the locked hierarchical classes hold the model's own contexts for an event?
+    nctx = 1 if '_locked_method' in get_class('LockedHierarchicalMachine', False).__dict__ else 0
+    return [g, locked, nested, 1 if (asy and case['opts']['queued'] == 'model') else 0, asy, nctx]
 
 
 def known_signature(case, clause, detail=''):
-    """narrow classifier of the two known findings; anything else has no signature (→ VIOLATION)"""
-    g, nested, locked, asy = FLAGS[case['cls']]
-    if g and locked and clause in ('contexts-entered', 'own-lock-not-honoured', 'remove_model-keyerror-id'):
-        return SIG_LOCKED_GRAPH
-    if asy and case['opts']['queued'] == 'model' and clause in ('event-keyerror-id', 'remove_model-keyerror-id'):
-        return SIG_QMODEL
+    """no open finding: every failing clause is a violation (the two former findings — locked graph classes,
+    async queued='model' — were repaired in /repo; their witnesses live in corpus/C15/ as regression cases)"""
     return None
 
 
@@ -1194,6 +1189,37 @@ def work(tier, seed, wid, cls_names, n):
     return ex
 
 
+def corpus_cases():
+    """corpus/C15/*.json: witnesses of past findings; run through the same oracle and correspondence"""
+    ex = runner.Exploration()
+    ex.stats = {'corpus': {}}
+    d = os.path.join(common.CORPUS, 'C15')
+    if not os.path.isdir(d):
+        return ex
+    pending = []
+    for fn in sorted(os.listdir(d)):
+        if not fn.endswith('.json'):
+            continue
+        with open(os.path.join(d, fn)) as fh:
+            case = json.load(fh)['case']
+        res = run_case(case)
+        ex.evaluations += 1
+        ex.stats['corpus'][fn] = 1
+        if res.get('rejected'):
+            raise common.MachineryError('corpus case %s rejected: %s' % (fn, res['rejected']))
+        ex.traces_validated += res['stats']['snapshots']
+        for kind, clause, what, sig in res['failures']:
+            ex.failures.append(runner.Failure(kind, clause, case, {'what': what, 'corpus': fn}, sig))
+        for rq in res['requests']:
+            pending.append((case, rq))
+    if pending:
+        answers = common.batch_driver([('c15', rq['nums']) for _c, rq in pending])
+        for (case, rq), ans in zip(pending, answers):
+            for dd in compare_model(case, rq, ans):
+                ex.failures.append(runner.Failure('correspondence', 'tables', case, {'what': 'prefix %d: %s' % (rq['p'], dd)}))
+    return ex
+
+
 def shrink_steps(case):
     h = case['history']
     for i in range(len(h) - 1, -1, -1):
@@ -1260,20 +1286,19 @@ class C15(runner.Check):
     prop = 'C15'
     level = 'proof'
     strict_correspondence = True
-    theorems = ('TM.C15_rekey', 'TM.C15_graphs', 'TM.C15_models', 'TM.C15_tables_partial', 'TM.C15_behaviour_partial',
-                'TM.C15_behaviour_invariant', 'TM.C15_held_locks_copy', 'TM.C15_held_locks_orig', 'TM.C15_frame',
-                'TM.C15_counterexample_locked_graph', 'TM.C15_counterexample_locked_graph_tables',
-                'TM.C15_counterexample_qmodel', 'TM.C15_full_false', 'TM.C15_tables_full_false')
+    theorems = ('TM.C15_rekey', 'TM.C15_queues', 'TM.C15_graphs', 'TM.C15_models', 'TM.C15_tables_full', 'TM.C15_full',
+                'TM.C15_behaviour_invariant', 'TM.C15_held_locks_copy', 'TM.C15_held_locks_orig', 'TM.C15_frame')
     manifest = dict(
         level='proof', design='DESIGN.md 4/C15; design_notes/C15.md',
         text="Partial. Lean 4 theorems over the identity-keyed side tables (model_context_map, model_graphs, "
              "_transition_queue_dict) as association lists, for any number of models/contexts and any injective renaming "
              "of object identities: LockedMachine's __getstate__/__setstate__ re-key by the new ids (same order, no stale "
              "key), GraphMachine's drop and regenerate one graph per model, every context object of the copy is fresh, "
-             "held locks never cross, events write only under the keys of registered models, and the unpickled machine "
-             "reacts to every history like the original (simulation, for an abstract transition relation). Proved for "
-             "every class kind that re-keys; for the locked graph classes and async queued='model' the negation is proved "
-             "on witnesses (two open known findings). Tie to /repo: pickle.loads(pickle.dumps(m)) at every prefix of "
+             "AsyncMachine's per-model queues are re-keyed likewise, held locks never cross, events write only under the keys "
+             "of registered models, and the unpickled machine reacts to every history like the original (simulation, "
+             "for an abstract transition relation) — full strength, for every predefined feature combination "
+             "(C15_full, C15_tables_full; the two former findings were repaired in /repo and are regression cases). "
+             "Tie to /repo: pickle.loads(pickle.dumps(m)) at every prefix of "
              "random histories on all 12 predefined classes; a Python oracle (structure, continuation differential "
              "against an un-pickled control, two-way independence incl. real held locks) is the monitor; the real tables "
              "before/after the round trip and after the continuation are compared with the model's. pickle's own object "
@@ -1305,8 +1330,8 @@ class C15(runner.Check):
                 'snapshots are taken at quiescent points only (no event in progress, queues empty)',
                 '"same options" is read as: every constructor option observable on the instance; graph styling other than the '
                 'active state (previous-transition marks) is regenerated by design and not compared',
-                'machine.remove_model on the copy is treated as part of "reacts like the original"; it has only been '
-                'seen to differ for the locked graph classes (known finding)',
+                'machine.remove_model on the copy is treated as part of "reacts like the original" (it raised KeyError '
+                'on the copies of the locked graph classes and of async queued=model machines before the fixes)',
                 'a copy that does not honour its own lock, or does not enter user contexts, is a difference in reaction',
                 'the theorems speak about an abstract transition relation; the engine itself is not re-proved equivariant']
 
@@ -1317,6 +1342,7 @@ class C15(runner.Check):
         workers, n = self.budget(tier)
         payloads = [(tier, seed, w, NAMES, n) for w in range(workers)]
         ex = runner.Exploration()
+        ex.merge(corpus_cases())          # regression witnesses first
         for part in runner.parallel(work, payloads):
             ex.merge(part)
         ex.failures = self.prepare_failures(ex.failures)
